@@ -34,6 +34,13 @@ L12R == {<<"nmt", 1>>, <<"nmt", 128>>, <<"tick">>, <<"trig", 1>>,
          <<"cfg", "evt", TRUE, 1, 3>>, <<"cfg", "evt", TRUE, 1, 32768>>, <<"cfg", "evt", TRUE, 1, 65535>>, <<"cfg", "inh", TRUE, 1, 40000>>, <<"cfg", "inh", TRUE, 1, 65535>>}
 P12R == << <<"pool">>, <<"rdcfg", "evt", TRUE, 1>>, <<"rdcfg", "inh", TRUE, 1>>, <<"tick">>, <<"tick">>, <<"pool">>, <<"trig", 1>>, <<"pool">>, <<"tick">>, <<"trig", 1>>,
            <<"nmt", 128>>, <<"nmt", 1>>, <<"pool">>, <<"tick">>, <<"tick">>, <<"pool">> >>
+\* ---- C12S: "sent on every n-th SYNC and on no other": a synchronous TPDO of type 3 next to the synchronous RPDO WITH THE SAME NUMBER that is
+\*      switched off / on and re-typed while the TPDO is counting
+TC12S == << TC(FALSE, 389, 3, 0, 0, 1, <<M("a", 8), Z4, Z4, Z4>>) >>
+RC12S == << RC(FALSE, 517, 1, 1, <<M("b", 8), Z4, Z4, Z4>>) >>
+L12S == {<<"nmt", 1>>, <<"nmt", 128>>, <<"sync", 128>>, <<"rpdo", 517, <<6, 0, 0, 0, 0, 0, 0, 0>>>>, <<"cfg", "cid", FALSE, 1, <<5, 2, 0, 128>>>>, <<"cfg", "cid", FALSE, 1, <<5, 2, 0, 0>>>>,
+         <<"cfg", "type", FALSE, 1, 254>>, <<"cfg", "type", FALSE, 1, 1>>, <<"cfg", "cid", TRUE, 1, <<133, 1, 0, 192>>>>, <<"cfg", "cid", TRUE, 1, <<133, 1, 0, 64>>>>}
+P12S == << <<"sync", 128>>, <<"sync", 128>>, <<"sync", 128>>, <<"sync", 128>>, <<"nmt", 1>>, <<"sync", 128>>, <<"sync", 128>>, <<"sync", 128>> >>
 \* ---- C12V: "triggered by a CHANGED asynchronous object" for every width: values that differ from the stored one in exactly
 \*      one byte (each byte position), written by SDO, by the application and by an RPDO; unchanged values re-written
 TC12V == << TC(FALSE, 389, 254, 0, 0, 3, <<M("a", 8), M("W", 16), M("L", 32), Z4>>) >>
